@@ -1,0 +1,30 @@
+//go:build verif
+
+// Contracts for the deductive verifier under /verif (comment-only file: it
+// adds no code; compiled only with -tags verif).
+package lifecycle
+
+// ---- C10 / C11: the cleanup goroutine of runPipeline (default engine) -------------
+//verif:closure of (*Service).runPipeline calling (*Service).recoverPipeline (nodesWg, rp, isGracefulShutdown, s) (ret)
+//verif:assume !is_fatal(global("tomb.ErrStillAlive")) because "tomb.ErrStillAlive is a plain sentinel created with errors.New; it contains no fatal marker"
+//verif:call[recover-only-transient] (*Service).recoverPipeline requires err$1 != global("tomb.ErrStillAlive") && !is_fatal(err$1) && !called("PipelineService.UpdateStatus")
+//verif:call[status-matches-cause] PipelineService.UpdateStatus requires (arg2 == StatusDegraded ==> is_fatal(err$1) || called("(*Service).recoverPipeline") && result_of("(*Service).recoverPipeline", 0) != nil) && arg2 != StatusRunning && arg2 != StatusRecovering && (is_fatal(result_of("tomb.(*Tomb).Err", 0)) ==> arg2 == StatusDegraded)
+//verif:call[record-result-before-unpublishing] (*Service).deleteRunningPipelineIfCurrent requires called("csync.(*Map).Set") && arg2 == deref(rp) && arg1 == deref(rp).pipeline.ID
+//verif:ensures[recovered-run-is-left-alone] called("(*Service).recoverPipeline") && result_of("(*Service).recoverPipeline", 0) == nil ==> ret == nil && !called("(*Service).deleteRunningPipelineIfCurrent") && !called("PipelineService.UpdateStatus") && !called("(*Service).notify")
+//verif:ensures[one-terminal-write] count("PipelineService.UpdateStatus") <= 1
+//verif:ensures[recover-at-most-once] count("(*Service).recoverPipeline") <= 1
+//verif:never csync.(*Map).Delete
+
+// C11: compare-and-delete under the publication lock
+//verif:func (*Service).deleteRunningPipelineIfCurrent(s, id, rp)
+//verif:call[only-own-entry] csync.(*Map).Delete requires called("sync.(*Mutex).Lock") && count("sync.(*Mutex).Unlock") == 0 && result_of("csync.(*Map).Get", 1) && result_of("csync.(*Map).Get", 0) == rp && arg1 == id
+
+// C10: bounded, backed-off recovery
+//verif:func (*Service).StartWithBackoff(s, ctx, rp) (err)
+//verif:call[restart-only-within-budget-after-backoff-for-current-run] (*Service).Start requires (s.errRecoveryCfg.MaxRetries == -1 || attempt <= s.errRecoveryCfg.MaxRetries) && called("time.After") && result_of("csync.(*Map).Get", 1) && result_of("csync.(*Map).Get", 0) == rp
+//verif:call[backoff-delay] time.After requires arg0 == result_of("backoff.(*Backoff).ForAttempt", 0)
+//verif:ensures[budget-exhausted-is-fatal] s.errRecoveryCfg.MaxRetries != -1 && attempt > s.errRecoveryCfg.MaxRetries ==> is_fatal(err) && !called("(*Service).Start")
+//verif:ensures[one-attempt-counted] count("atomic.(*Int64).Add") == 1
+
+//verif:func (*Service).recoverPipeline(s, ctx, rp) (err)
+//verif:call[recovering-status-first] (*Service).StartWithBackoff requires succeeded("PipelineService.UpdateStatus") && arg2 == rp
